@@ -163,9 +163,9 @@ void rep_note(const char *fmt, ...)
 
 static int cnt_find(const char *name, int is_max)
 {
-	for (int i = 0; i < g_ncnt; i++) if (g_cnt[i].name == name || !strcmp(g_cnt[i].name, name)) return i;
+	for (int i = 0; i < g_ncnt; i++) if (!strcmp(g_cnt[i].name, name)) return i;
 	if (g_ncnt == MAXCNT) return MAXCNT - 1;
-	g_cnt[g_ncnt].name = name; g_cnt[g_ncnt].v = 0; g_cnt[g_ncnt].is_max = is_max;
+	g_cnt[g_ncnt].name = strdup(name); g_cnt[g_ncnt].v = 0; g_cnt[g_ncnt].is_max = is_max;
 	return g_ncnt++;
 }
 void rep_count(const char *name, uint64_t add) { g_cnt[cnt_find(name, 0)].v += add; }
